@@ -26,12 +26,14 @@ def run(run, model):
     run.do(msg.text_and_assembly, model)
     run.do(msg.decorator_regex, model)
     run.do(msg.scan_bounds, model)
+    run.do(msg.bare_at_prefix, model)
     run.do(rec.lookup, model, "C07.lookup")
     run.do(effects.handlers_rule, model, "C07.no-swallow")
     from . import fwd
     run.do(fwd.forwarding, model, "C07.forwarded", ("condition", "description", "location", "error"))
     run.do(rec.lambda_location, model)
     run.do(rec.all_trace, model, "C07.all-trace")
+    run.do(rec.trace_only_unhappy, model)
     # the message (or the user's error factory) is built from the arguments of the call the contract was evaluated with
     from . import gates, loops
     for role, ck in gates.checkers(model).items():
